@@ -162,8 +162,25 @@ def run_selftest(pid):
         pass
     try:
         ridx = json.load(open(os.path.join(rdir, "index.json")))
+        # a rewrite is replayed against the properties whose anchor files it touches (the full cross product is
+        # what analysis/refactor_test.py runs)
+        files = set()
+        try:
+            for line in open(os.path.join(VERIF, "properties.jsonl")):
+                d = json.loads(line)
+                if d.get("id") == pid:
+                    files = set(d.get("anchors", {}).get("files", []))
+        except Exception:
+            files = set()
         for n in sorted(ridx):
-            jobs.append(("refactors", n, os.path.join(rdir, n + ".diff")))
+            pf = os.path.join(rdir, n + ".diff")
+            try:
+                touched = set(l.split(" b/", 1)[1].strip() for l in open(pf) if l.startswith("diff --git ") and " b/" in l)
+                touched |= set(l[6:].strip() for l in open(pf) if l.startswith("+++ b/"))
+            except Exception:
+                touched = set()
+            if not files or not touched or (files & touched):
+                jobs.append(("refactors", n, pf))
     except Exception:
         pass
     # independently seeded changes written for this property (sub-agents; see DESIGN.md 10.7-10.10)
